@@ -254,13 +254,14 @@ func looseBounds(od opData) (sdkmath.Int, sdkmath.Int) {
 		}
 		return sdkmath.OneInt(), sdkmath.ZeroInt()
 	case "addliq":
-		return huge, sdkmath.ZeroInt()
+		// affordable for every actor: when the pool is empty the whole MaxToken is deposited
+		return mc.Big(130), sdkmath.ZeroInt()
 	case "rmliq":
 		return sdkmath.ZeroInt(), sdkmath.ZeroInt()
 	case "uniadd":
 		return sdkmath.ZeroInt(), sdkmath.ZeroInt()
 	case "unirm":
-		return sdkmath.ZeroInt(), sdkmath.ZeroInt()
+		return sdkmath.OneInt(), sdkmath.ZeroInt() // validation requires a positive minimum
 	}
 	panic("looseBounds")
 }
@@ -391,17 +392,14 @@ func (d *Driver) apply(e *mc.Env, s *mc.State, op mc.Op) []mc.Finding {
 		if od.past || od.bound == "miss1" {
 			return fs // correctly rejected
 		}
-		if od.bound == "exact" && learnedOK {
-			fs = append(fs, mc.F("C02/bound-exactly-met-rejected/"+mt, "%s with bounds set exactly to the obtainable amounts was rejected: %s", op.Name, out))
-		}
+		// a rejection (even with exactly-met bounds) moves nothing; the property speaks about successful messages
 		return fs
 	}
 	if od.past {
 		fs = append(fs, mc.F("C02/deadline-ignored/"+mt, "%s succeeded although its deadline (%d) is before the block time %d", op.Name, deadline(s, true), s.Ctx.BlockTime().Unix()))
 	}
-	if od.bound == "miss1" && learnedOK {
-		fs = append(fs, mc.F("C02/bound-ignored/"+mt, "%s succeeded although the user's bound is one unit beyond what the trade yields: moved [%s]", op.Name, got))
-	}
+	// the user's bounds, checked directly on what moved: at most the stated maxima, at least the stated minima
+	fs = append(fs, d.boundsRespected(e, s, od, mt, got, b1, b2)...)
 	if od.bound == "exact" && learnedOK && !got.Equal(learned) {
 		fs = append(fs, mc.F("C02/bounds-change-amounts/"+mt, "%s: with exact bounds moved [%s], with loose bounds [%s]", op.Name, got, learned))
 	}
@@ -428,6 +426,48 @@ func (d *Driver) apply(e *mc.Env, s *mc.State, op mc.Op) []mc.Finding {
 		}
 		if od.kind == "swap" {
 			fs = append(fs, swapLegCheck(op.Name, mt, cp, p0, p1, params.Fee, od.buy)...)
+		}
+	}
+	return fs
+}
+
+// boundsRespected checks the stated maxima / minima of a successful message against the observed deltas.
+func (d *Driver) boundsRespected(e *mc.Env, s *mc.State, od opData, mt string, got mc.Delta, b1, b2 sdkmath.Int) []mc.Finding {
+	var fs []mc.Finding
+	bad := func(what string, moved *big.Int, rel string, bound sdkmath.Int) {
+		fs = append(fs, mc.F("C02/bound-ignored/"+mt+"/"+what, "%s %s but the message stated %s %s", what, moved, rel, bound))
+	}
+	lpt, _, _ := lptOf(e, s, od.pool)
+	switch od.kind {
+	case "swap":
+		if od.buy {
+			if paid := neg(got.Get(od.who, od.in)); paid.Cmp(b1.BigInt()) > 0 {
+				bad("paid", paid, "at most", b1)
+			}
+		} else if recv := got.Get(od.rcpt, od.out); recv.Cmp(b1.BigInt()) < 0 {
+			bad("received", recv, "at least", b1)
+		}
+	case "addliq":
+		if dep := neg(got.Get(od.who, od.pool)); dep.Cmp(b1.BigInt()) > 0 {
+			bad("token-deposit", dep, "at most", b1)
+		}
+		if minted := got.Get(od.who, lpt); minted.Cmp(b2.BigInt()) < 0 {
+			bad("minted-liquidity", minted, "at least", b2)
+		}
+	case "rmliq":
+		if t := got.Get(od.who, od.pool); t.Cmp(b1.BigInt()) < 0 {
+			bad("token-withdrawn", t, "at least", b1)
+		}
+		if st := got.Get(od.who, std); st.Cmp(b2.BigInt()) < 0 {
+			bad("standard-withdrawn", st, "at least", b2)
+		}
+	case "uniadd":
+		if minted := got.Get(od.who, lpt); minted.Cmp(b1.BigInt()) < 0 {
+			bad("minted-liquidity", minted, "at least", b1)
+		}
+	case "unirm":
+		if t := got.Get(od.who, od.side); t.Cmp(b1.BigInt()) < 0 {
+			bad("token-withdrawn", t, "at least", b1)
 		}
 	}
 	return fs
